@@ -262,6 +262,7 @@ func c02Run(rc *RunCtx, params any) {
 			return
 		}
 	}
+	rc.Note("proto", protoTag(v.C, v.S))
 	n := NewSimNet(s, p.Rules)
 	pair, err := NewPair(s, n, v.C, v.S, env)
 	if err != nil {
